@@ -12,6 +12,9 @@ MCProgSpace == LET ps == ndJsonDeserialize(IOEnv.PROGS) IN {ps[i] : i \in DOMAIN
 Compact(ev) == <<ev.e, ev.t, ev.id, ev.o, ev.a, ev.v, ev.cls, ev.old, ev.res, ev.ip>>
 PrintDone == AllDone => PrintT(ToJson([pid |-> prog.pid, log |-> [n \in DOMAIN log |-> Compact(log[n])]]))
 
+\* exhaustive exploration of interleavings: the event history is observation only
+NoLogView == <<prog, stack, reg, status, cv, ips, ost, busy, nx, ns, emit>>
+
 \* bound on the depth of any behaviour (a runaway recursion in the model shows up as a violation of Bounded)
 MaxDepth == 2000
 DepthOK == TLCGet("level") < MaxDepth
